@@ -352,6 +352,16 @@ class Engine:
         self.obligations.append(ob)
         return ob
 
+    def add_decided_once(self, kind, label, status, backend, meta=None):
+        name = f"{self.prop}/{self.unit}/{kind}:{label}"
+        n = self.counter.get(("ob", name), 0)
+        self.counter[("ob", name)] = n + 1
+        if n:
+            label = f"{label}#{n}"
+        ob = self.add_decided(kind, label, status, backend)
+        ob.meta.update(meta or {})
+        return ob
+
     def cover(self, state, label):
         name = f"{self.prop}/{self.unit}/cover:{label}"
         n = self.counter.get(("cv", name), 0)
@@ -533,7 +543,8 @@ class Engine:
                 # variables (fresh symbols), assume the clauses about the fresh values
                 from .loops import eval_clauses, norm_clauses, havoc_value
 
-                clabel, clauses, hv = chit
+                clabel, clauses, hv = chit[:3]
+                hv_int = chit[3] if len(chit) > 3 else []
                 self.cuts_hit.add(clabel)
                 outs = m(node, state, fid)
                 for s2, oc in outs:
@@ -543,6 +554,14 @@ class Engine:
                     for label, val in eval_clauses(self, s2, fid, norm_clauses(clauses)):
                         self.oblige(s2, "lemma", f"cut.{clabel}.{label}", val)
                     fr = s2.frames[fid]["vars"]
+                    for nm in hv_int:
+                        # a float array proved integer-valued is forgotten as to_real of a fresh int array
+                        from .contract import eval_text as _et
+
+                        tgt = self.deref(s2, fr[nm])
+                        self.oblige(s2, "lemma", f"cut.{clabel}.integer_valued[{nm}]", self.truthy(s2, _et(self, s2, fid, f"forall(0, len({nm}), lambda g_: {nm}[g_] == floor({nm}[g_]))")))
+                        ia = self.fresh_array(nm + "_int", tgt.shape, "int")
+                        fr[nm] = self.alloc(s2, ArrV(tgt.shape, lambda ix, ia=ia: V.to_real(ia.fn(ix)), "real"))
                     for nm in hv:
                         cur = fr[nm]
                         tgt = self.deref(s2, cur)
@@ -848,8 +867,17 @@ class Engine:
             sa.assume(c)
             sb = s1
             sb.assume(V.b_not(c))
-            ra = self.exec_block(node.body, sa, fid) if self.feasible(sa) else []
-            rb = self.exec_block(node.orelse, sb, fid) if self.feasible(sb) else []
+            fa_, fb_ = self.feasible(sa), self.feasible(sb)
+            ra = self.exec_block(node.body, sa, fid) if fa_ else []
+            rb = self.exec_block(node.orelse, sb, fid) if fb_ else []
+            for ok_, blk in ((fa_, node.body), (fb_, node.orelse)):
+                if not ok_ and not state.ghost:
+                    # a pruned branch that raises directly: the unreachability proof is an obligation of its own
+                    for stn in blk:
+                        if isinstance(stn, ast.Raise):
+                            ex_ = stn.exc.func if isinstance(stn.exc, ast.Call) else stn.exc
+                            cls_ = ex_.id if isinstance(ex_, ast.Name) else getattr(ex_, "attr", "Exception")
+                            self.add_decided_once("safe", f"no_raise:{cls_}", "unsat", "z3 (path condition of the raising branch is unsatisfiable)", meta={"line": stn.lineno})
             merged = self.try_merge(c, ra, rb, len(s1.pc) - 1)
             outs.extend(merged)
         self.npaths += len(outs)
